@@ -122,7 +122,7 @@ def case_wellformed(ctx, spec):
 
 
 # ---- ill-formed classes ---------------------------------------------------------------------------
-ILL = ["trade_nan_price", "transact_nan_price", "trade_zero_price", "nan_price_open_position", "nan_coupon_open_position", "duplicate_columns", "zero_base_mv", "zero_base_fi", "fi_under_mv", "custom_price_no_bidoffer"]
+ILL = ["trade_nan_price", "transact_nan_price", "trade_zero_price", "nan_price_open_position", "nan_coupon_open_position", "duplicate_columns", "zero_base_mv", "zero_base_fi", "fi_under_mv", "custom_price_no_bidoffer", "misaligned_rate_table"]
 
 
 @st.composite
@@ -202,6 +202,19 @@ def _case_illformed(ctx, spec):
         data = interp.mk_frame(ds, pr)
         data = pd.concat([data, data[[bad]]], axis=1)
         must_raise(lambda: bt.Backtest(bt.Strategy("s", [bt.algos.RunDaily(), bt.algos.SelectAll(), bt.algos.WeighEqually(), bt.algos.Rebalance()]), data, progress_bar=False), "Backtest over data with duplicate column %s" % bad)
+        return {"nontrivial": True, "labels": labs}
+    if klass == "misaligned_rate_table":
+        # coupons and holding costs are read by row number: a table whose rows are dated differently from the prices would be read
+        # on the wrong dates (later ones, if it starts late), so it has to be refused like a misaligned coupon table is
+        data = interp.mk_frame(ds, pr)
+        coup = interp.mk_frame(ds, {t: [0.01] * len(ds) for t in pr})
+        late = interp.mk_frame(ds[k:] if k < len(ds) else ds[1:], {t: [0.001] * len(ds[k:] if k < len(ds) else ds[1:]) for t in pr})
+        which = ["coupons", "cost_long", "cost_short"][spec.get("custom_q", 5.0) == 5.0 and 1 or (spec.get("custom_q") == -3.0 and 2 or 0)]
+        kw = {"coupons": coup}
+        kw[which] = late
+        root = bt.core.FixedIncomeStrategy("root", children=[bt.core.CouponPayingSecurity(t) for t in sorted(pr)])
+        must_raise(lambda: root.setup(data, **kw), "setup with a %s table that starts on %s while the prices start on %s" % (which, late.index[0], data.index[0]))
+        labs.append(which)
         return {"nontrivial": True, "labels": labs}
     if klass == "fi_under_mv":
         data = interp.mk_frame(ds, pr)
